@@ -69,6 +69,19 @@ pub enum OpKind {
     /// search with a private clone, drop the clone while the Captures are still alive, let other
     /// threads run, then read every group by index and by name (the name table outlives its Regex)
     CapturesOutliveRegex,
+    /// regex life cycle across threads: drop whatever regex sits in mailbox `slot` (its destructor
+    /// may run here), compile regex spec `spec` afresh and leave it in the mailbox for other threads
+    Publish { slot: usize, spec: usize },
+    /// search with whatever regex currently sits in mailbox `slot` (compiled, and possibly soon
+    /// dropped, by another thread); the result names the spec it saw
+    UseSlot { slot: usize },
+}
+
+/// Mailboxes through which threads hand freshly compiled regexes to each other. Locks are never held
+/// across a yield point, so no simulated thread can block on them.
+pub struct Mail {
+    pub slots: Vec<Mutex<Option<(usize, Arc<Regex>)>>>,
+    pub specs: Vec<RegexSpec>,
 }
 
 #[derive(Clone, Debug, PartialEq, Eq)]
@@ -116,6 +129,8 @@ pub struct Scenario {
     pub texts: Vec<String>,
     pub threads: Vec<Vec<Op>>,
     pub sharing: Sharing,
+    /// number of mailboxes (0 = no life-cycle operations in this scenario)
+    pub mailboxes: usize,
 }
 
 // ------------------------------------------------------------------------------------------------
@@ -150,6 +165,10 @@ fn fmt_err(e: &fancy_regex::Error) -> String {
 }
 
 pub fn exec_op(re: &Regex, text: &str, op: &Op) -> String {
+    exec_op_with(re, text, op, None)
+}
+
+pub fn exec_op_with(re: &Regex, text: &str, op: &Op, mail: Option<&Mail>) -> String {
     verif::reset_run_ordinal();
     match &op.fault {
         Some((j, kind, val)) => verif::set_fault_plan(vec![(
@@ -162,12 +181,60 @@ pub fn exec_op(re: &Regex, text: &str, op: &Op) -> String {
         )]),
         None => verif::set_fault_plan(Vec::new()),
     }
-    let r = std::panic::catch_unwind(std::panic::AssertUnwindSafe(|| exec_op_inner(re, text, op)));
+    let r = std::panic::catch_unwind(std::panic::AssertUnwindSafe(|| match (&op.kind, mail) {
+        (OpKind::Publish { slot, spec }, Some(m)) => {
+            let old = m.slots[*slot].lock().unwrap().take();
+            drop(old);
+            if spec % 2 == 0 {
+                sched::yield_now(SITE_OP_BOUNDARY);
+            }
+            match m.specs[*spec].build() {
+                Some(r) => {
+                    *m.slots[*slot].lock().unwrap() = Some((*spec, Arc::new(r)));
+                    "published".to_string()
+                }
+                None => "publish-failed".to_string(),
+            }
+        }
+        (OpKind::UseSlot { slot }, Some(m)) => {
+            let got = m.slots[*slot].lock().unwrap().as_ref().map(|(i, r)| (*i, r.clone()));
+            match got {
+                None => "empty".to_string(),
+                Some((i, r)) => {
+                    let res = std::panic::catch_unwind(std::panic::AssertUnwindSafe(|| use_slot_search(&r, text)))
+                        .unwrap_or_else(|p| format!("PANIC({})", panic_message(p)));
+                    sched::yield_now(SITE_OP_BOUNDARY);
+                    drop(r);
+                    format!("spec={} {}", i, res)
+                }
+            }
+        }
+        (OpKind::Publish { .. }, None) | (OpKind::UseSlot { .. }, None) => "n/a".to_string(),
+        _ => exec_op_inner(re, text, op),
+    }));
     verif::set_fault_plan(Vec::new());
     match r {
         Ok(s) => s,
         Err(p) => format!("PANIC({})", panic_message(p)),
     }
+}
+
+/// what a UseSlot operation does with the regex it found (also used, alone on a fresh regex, as
+/// its reference)
+fn use_slot_search(re: &Regex, text: &str) -> String {
+    let a = match re.captures(text) {
+        Ok(Some(c)) => fmt_caps(&c, re),
+        Ok(None) => "-".to_string(),
+        Err(e) => fmt_err(&e),
+    };
+    let mut out = vec![a];
+    for m in re.find_iter(text).take(text.chars().count() + 3) {
+        match m {
+            Ok(m) => out.push(fmt_span(Some(m))),
+            Err(e) => out.push(fmt_err(&e)),
+        }
+    }
+    out.join(" ")
 }
 
 fn clamp_pos(text: &str, pos: usize) -> usize {
@@ -298,6 +365,7 @@ fn exec_op_inner(re: &Regex, text: &str, op: &Op) -> String {
                 Err(e) => fmt_err(&e),
             }
         }
+        OpKind::Publish { .. } | OpKind::UseSlot { .. } => "n/a".to_string(),
         OpKind::CloneAndFind => {
             let c = re.clone();
             sched::yield_now(SITE_OP_BOUNDARY);
@@ -346,6 +414,7 @@ pub fn run_concurrent(sc: &Scenario, seed: u64, policy: Policy) -> Option<RunRes
     let n = sc.threads.len();
     let shared: Vec<Arc<Regex>> = sc.regexes.iter().map(|r| r.build().map(Arc::new)).collect::<Option<Vec<_>>>()?;
     let texts = Arc::new(sc.texts.clone());
+    let mail = Arc::new(Mail { slots: (0..sc.mailboxes).map(|_| Mutex::new(None)).collect(), specs: sc.regexes.clone() });
     let sched = Sched::new(n, seed, policy, 5_000_000);
     let results: Arc<Mutex<Vec<Vec<String>>>> = Arc::new(Mutex::new(vec![Vec::new(); n]));
     let mut handles = Vec::new();
@@ -364,6 +433,7 @@ pub fn run_concurrent(sc: &Scenario, seed: u64, policy: Policy) -> Option<RunRes
         let texts = texts.clone();
         let sched = sched.clone();
         let results = results.clone();
+        let mail = mail.clone();
         handles.push(
             std::thread::Builder::new()
                 .stack_size(16 << 20)
@@ -372,13 +442,14 @@ pub fn run_concurrent(sc: &Scenario, seed: u64, policy: Policy) -> Option<RunRes
                     verif::set_yield_hook(Some(sched::yield_hook));
                     let mut mine = Vec::new();
                     for op in &ops {
-                        let r = exec_op(&regs[op.re], &texts[op.text], op);
+                        let r = exec_op_with(&regs[op.re], &texts[op.text], op, Some(&mail));
                         mine.push(r);
                         sched::yield_now(SITE_OP_BOUNDARY);
                     }
                     verif::set_yield_hook(None);
                     results.lock().unwrap()[t] = mine;
                     drop(regs);
+                    drop(mail);
                     sched.finish(t);
                 })
                 .expect("spawn simulated thread"),
@@ -409,6 +480,43 @@ pub fn judge(sc: &Scenario, solo: &[Vec<String>], r: &RunResult) -> Option<(Stri
             ));
         }
         for (k, op) in sc.threads[t].iter().enumerate() {
+            match &op.kind {
+                OpKind::Publish { .. } => {
+                    if r.results[t][k] != "published" {
+                        return Some(("result-differs-from-solo".into(), format!("thread {} op #{} {:?}: {}", t, k, op.kind, r.results[t][k])));
+                    }
+                    continue;
+                }
+                OpKind::UseSlot { .. } => {
+                    let got = &r.results[t][k];
+                    if got == "empty" {
+                        continue;
+                    }
+                    // "spec=<i> <result>": the reference is the same search alone on a fresh regex
+                    let spec = got.strip_prefix("spec=").and_then(|x| x.split(' ').next()).and_then(|x| x.parse::<usize>().ok());
+                    let expect = spec.and_then(|i| sc.regexes.get(i)).and_then(|s| s.build()).map(|re| {
+                        verif::reset_run_ordinal();
+                        verif::set_fault_plan(Vec::new());
+                        budget::install();
+                        budget::arm(SOLO_INSN_BUDGET, 100_000);
+                        let e = std::panic::catch_unwind(std::panic::AssertUnwindSafe(|| use_slot_search(&re, &sc.texts[op.text]))).unwrap_or_else(|p| format!("PANIC({})", panic_message(p)));
+                        budget::disarm();
+                        format!("spec={} {}", spec.unwrap(), e)
+                    });
+                    if expect.as_deref() != Some(got.as_str()) {
+                        let class = if got.contains("PANIC") { "panic-only-when-concurrent" } else { "result-differs-from-solo" };
+                        return Some((
+                            class.into(),
+                            format!(
+                                "thread {} op #{} UseSlot on text {:?}: searching the regex another thread had just compiled (/{}/) returned {} ; alone on a fresh Regex it returns {:?}",
+                                t, k, sc.texts[op.text], spec.and_then(|i| sc.regexes.get(i)).map(|s| s.pattern.as_str()).unwrap_or("?"), got, expect
+                            ),
+                        ));
+                    }
+                    continue;
+                }
+                _ => {}
+            }
             if r.results[t][k] != solo[t][k] {
                 let class = if r.results[t][k].starts_with("PANIC") && !solo[t][k].starts_with("PANIC") {
                     "panic-only-when-concurrent"
@@ -456,6 +564,17 @@ const C18_PATTERNS: &[&str] = &[
     r"(?<y>\d{2})-(?<m>\d)(?!\d)",
 ];
 
+/// Families of patterns that compile to programs of the same shape and size (so that a regex
+/// compiled after another was dropped tends to land on the same addresses) but answer differently.
+const SIBLINGS: &[&[&str]] = &[
+    &[r"\w+(?=!)", r"\d+(?=!)", r"[ab]+(?=!)", r"[^a]+(?=!)"],
+    &[r"(\w+)\s\w+(?=!)", r"(\d+)\s\d+(?=!)", r"([a-c]+)\s\S+(?=!)"],
+    &[r"(?<=a)\w+(?!-)", r"(?<=a)\d+(?!-)", r"(?<=a)[b-]+(?!-)"],
+    &[r"(a+)b\1", r"(b+)a\1", r"(a+)c\1", r"(c+)b\1"],
+    &[r"(\w)\w*-\1", r"(\d)\d*-\1", r"([ab])\S*-\1"],
+    &[r"(a)?(?(1)b|c)", r"(b)?(?(1)a|c)", r"(c)?(?(1)a|b)"],
+];
+
 fn gen_scenario(rng: &mut Rng, max_threads: usize) -> Option<Scenario> {
     let n_re = rng.range(1, 2);
     let mut regexes = Vec::new();
@@ -471,14 +590,29 @@ fn gen_scenario(rng: &mut Rng, max_threads: usize) -> Option<Scenario> {
         spec.build()?;
         regexes.push(spec);
     }
+    // a quarter of the scenarios exercise the regex life cycle across threads
+    let mailboxes = if rng.chance(1, 3) { rng.range(1, 2) } else { 0 };
+    let first_sibling = regexes.len();
+    if mailboxes > 0 {
+        let fam = *rng.pick(SIBLINGS);
+        for p in fam.iter().take(rng.range(2, fam.len())) {
+            let spec = RegexSpec { pattern: p.to_string(), builder_limit: None };
+            spec.build()?;
+            regexes.push(spec);
+        }
+    }
     let n_texts = rng.range(2, 4);
     let mut texts: Vec<String> = (0..n_texts).map(|_| gen::gen_text(rng, 8)).collect();
     texts.push(rng.pick(&["aaab aaab!", "2018-04 ab-cd", "abcbcd abab", "aaaaaaaaaa", "ab ab! ba"]).to_string());
+    if mailboxes > 0 {
+        texts.push("ab 12! a1-a b2!".to_string());
+        texts.push(rng.pick(&["a12 ab- ba!", "12 34! ab cd!", "b-b 1-1 ab-a"]).to_string());
+    }
     let n_threads = rng.range(2, max_threads);
     let sharing = *rng.pick(&[Sharing::Shared, Sharing::Shared, Sharing::Clones, Sharing::Mixed]);
     let mut threads = Vec::new();
-    for _ in 0..n_threads {
-        let n_ops = rng.range(2, if n_threads > 8 { 4 } else { 8 });
+    for t in 0..n_threads {
+        let n_ops = if mailboxes > 0 { rng.range(6, 16) } else { rng.range(2, if n_threads > 8 { 4 } else { 8 }) };
         let mut ops = Vec::new();
         for _ in 0..n_ops {
             let text = rng.below(texts.len());
@@ -500,11 +634,25 @@ fn gen_scenario(rng: &mut Rng, max_threads: usize) -> Option<Scenario> {
                 14 => OpKind::CapturesOutliveRegex,
                 _ => OpKind::CapturesHeld,
             };
-            ops.push(Op { kind, re: rng.below(regexes.len()), text, fault: None });
+            // life-cycle scenarios: thread 0 mostly compiles / drops / publishes (the same thread
+            // freeing and allocating is what makes addresses recur), the others mostly search with
+            // whatever is published
+            let kind = if mailboxes > 0 && rng.chance(3, 4) {
+                let publish = if t == 0 { rng.chance(3, 4) } else { rng.chance(1, 8) };
+                if publish {
+                    OpKind::Publish { slot: rng.below(mailboxes), spec: first_sibling + rng.below(regexes.len() - first_sibling) }
+                } else {
+                    OpKind::UseSlot { slot: rng.below(mailboxes) }
+                }
+            } else {
+                kind
+            };
+            // ordinary operations use the scenario's ordinary regexes
+            ops.push(Op { kind, re: rng.below(first_sibling), text, fault: None });
         }
         threads.push(ops);
     }
-    Some(Scenario { regexes, texts, threads, sharing })
+    Some(Scenario { regexes, texts, threads, sharing, mailboxes })
 }
 
 /// Add limit faults to some operations, placed where they can fire (thresholds read from a solo
@@ -515,6 +663,11 @@ fn place_faults_and_trim(sc: &mut Scenario, rng: &mut Rng) -> u64 {
     for t in 0..sc.threads.len() {
         let mut keep = Vec::new();
         for op in sc.threads[t].clone() {
+            if matches!(op.kind, OpKind::Publish { .. } | OpKind::UseSlot { .. }) {
+                est_decisions += 200;
+                keep.push(op);
+                continue;
+            }
             let Some(re) = sc.regexes[op.re].build() else { continue };
             verif::record_run_stats(true);
             budget::arm(SOLO_INSN_BUDGET, 100_000);
@@ -577,6 +730,8 @@ fn op_to_json(op: &Op) -> Value {
         OpKind::CloneAndFind => json!(["clone_and_find"]),
         OpKind::CapturesHeld => json!(["captures_held"]),
         OpKind::CapturesOutliveRegex => json!(["captures_outlive_regex"]),
+        OpKind::Publish { slot, spec } => json!(["publish", slot, spec]),
+        OpKind::UseSlot { slot } => json!(["use_slot", slot]),
     };
     json!({"op": kind, "re": op.re, "text": op.text, "fault": op.fault.as_ref().map(|(j, k, v)| json!([j, k, v]))})
 }
@@ -607,6 +762,8 @@ fn op_from_json(v: &Value) -> Option<Op> {
         "clone_and_find" => OpKind::CloneAndFind,
         "captures_held" => OpKind::CapturesHeld,
         "captures_outlive_regex" => OpKind::CapturesOutliveRegex,
+        "publish" => OpKind::Publish { slot: n(1)?, spec: n(2)? },
+        "use_slot" => OpKind::UseSlot { slot: n(1)? },
         _ => return None,
     };
     Some(Op {
@@ -627,6 +784,7 @@ fn scenario_to_json(sc: &Scenario, handoffs: &[(u64, usize)], seed: u64) -> Valu
         "regexes": sc.regexes.iter().map(|r| json!({"pattern": r.pattern, "builder_limit": r.builder_limit})).collect::<Vec<_>>(),
         "texts": sc.texts,
         "sharing": format!("{:?}", sc.sharing),
+        "mailboxes": sc.mailboxes,
         "threads": sc.threads.iter().map(|ops| ops.iter().map(op_to_json).collect::<Vec<_>>()).collect::<Vec<_>>(),
         "schedule": handoffs.iter().map(|(d, t)| json!([d, t])).collect::<Vec<_>>(),
     })
@@ -654,7 +812,8 @@ fn scenario_from_json(v: &Value) -> Option<(Scenario, Vec<(u64, usize)>, u64)> {
         .iter()
         .map(|h| Some((h[0].as_u64()?, h[1].as_u64()? as usize)))
         .collect::<Option<Vec<_>>>()?;
-    Some((Scenario { regexes, texts, threads, sharing }, schedule, v["sched_seed"].as_u64().unwrap_or(0)))
+    let mailboxes = v["mailboxes"].as_u64().unwrap_or(0) as usize;
+    Some((Scenario { regexes, texts, threads, sharing, mailboxes }, schedule, v["sched_seed"].as_u64().unwrap_or(0)))
 }
 
 fn run_forced(sc: &Scenario, handoffs: &[(u64, usize)]) -> Option<(String, String)> {
@@ -720,6 +879,9 @@ struct JobOut {
     overlap_runs: u64,
     max_in_flight: usize,
     clone_ops: u64,
+    publish_ops: u64,
+    use_slot_ops: u64,
+    use_slot_found: u64,
     reentrant_ops: u64,
     free_runs: u64,
     budget_exhausted: u64,
@@ -778,6 +940,13 @@ fn job(seed: u64, i: u64, max_threads: usize, runs_per_job: usize) -> (JobOut, O
                 }
                 match op.kind {
                     OpKind::CloneAndFind | OpKind::CapturesOutliveRegex => out.clone_ops += 1,
+                    OpKind::Publish { .. } => out.publish_ops += 1,
+                    OpKind::UseSlot { .. } => {
+                        out.use_slot_ops += 1;
+                        if r.results.get(t).and_then(|v| v.get(k)).map_or(false, |x| x.starts_with("spec=")) {
+                            out.use_slot_found += 1;
+                        }
+                    }
                     OpKind::Replace(_, RepKind::Reentrant) => out.reentrant_ops += 1,
                     _ => {}
                 }
@@ -813,7 +982,9 @@ fn job(seed: u64, i: u64, max_threads: usize, runs_per_job: usize) -> (JobOut, O
                 return (out, Some(v));
             }
             let (msc, mh) = if class == "deadlock" { (sc.clone(), r.handoffs.clone()) } else { minimise(&sc, &r.handoffs, &class) };
-            let detail = run_forced(&msc, &mh).map(|(_, d)| d).unwrap_or(detail);
+            let detail = run_forced(&msc, &mh).map(|(_, d)| d).unwrap_or_else(|| {
+                format!("{} (did not recur when the recorded schedule was replayed at once in this process: the outcome depends on state outside the simulator, e.g. allocator addresses or thread-local caches left by earlier runs)", detail)
+            });
             return (out, Some(Violation::new(PROP, &class, detail, scenario_to_json(&msc, &mh, sched_seed))));
         }
     }
@@ -835,7 +1006,7 @@ pub fn digest(seed: u64, n: u64, workers: usize) -> Vec<u64> {
 pub fn run(opts: &Opts) -> i32 {
     let t0 = now();
     let thorough = opts.tier == Tier::Thorough;
-    let n = if opts.budget > 0 { opts.budget } else if thorough { 40_000 } else { 1_500 };
+    let n = if opts.budget > 0 { opts.budget } else if thorough { 40_000 } else { 2_500 };
     let seed = opts.seed;
     let (results, viol) = run_batch(n, opts.workers, move |i| job(seed, i, 16, 4));
     let mut agg = JobOut { threads_hist: vec![0; 17], site_counts: vec![0; 128], ..JobOut::default() };
@@ -851,6 +1022,9 @@ pub fn run(opts: &Opts) -> i32 {
         agg.overlap_runs += r.overlap_runs;
         agg.max_in_flight = agg.max_in_flight.max(r.max_in_flight);
         agg.clone_ops += r.clone_ops;
+        agg.publish_ops += r.publish_ops;
+        agg.use_slot_ops += r.use_slot_ops;
+        agg.use_slot_found += r.use_slot_found;
         agg.reentrant_ops += r.reentrant_ops;
         agg.free_runs += r.free_runs;
         agg.budget_exhausted += r.budget_exhausted;
@@ -904,6 +1078,9 @@ pub fn run(opts: &Opts) -> i32 {
             "runs_with_two_or_more_searches_in_flight": agg.overlap_runs,
             "max_searches_in_flight": agg.max_in_flight,
             "clone_during_run_ops": agg.clone_ops,
+            "regex_compiled_and_published_mid_run_ops": agg.publish_ops,
+            "searches_with_a_regex_published_by_another_thread": agg.use_slot_found,
+            "use_slot_ops_that_found_the_mailbox_empty": agg.use_slot_ops - agg.use_slot_found,
             "reentrant_replacer_ops": agg.reentrant_ops,
             "runs_by_thread_count": agg.threads_hist,
             "runs_by_policy_uniform_pct_opboundary": agg.policy_counts,
